@@ -5,8 +5,13 @@ import sys
 
 sys.path.insert(0, os.path.dirname(os.path.abspath(__file__)))
 from objbase import ObjCheck  # noqa: E402
+from hypothesis import strategies as st  # noqa: E402
+
+from vlib import consts as K  # noqa: E402
+from vlib import faultleg  # noqa: E402
+from vlib.env import Stage  # noqa: E402
 from vlib.objworld import program_st  # noqa: E402
-from vlib.runner import main  # noqa: E402
+from vlib.runner import Violation, main  # noqa: E402
 
 WEIGHTS = {"open": 3, "close": 1, "login": 2, "logout": 1, "create": 10, "copy": 4, "destroy": 2, "set": 6, "gen": 3,
            "genpair": 2, "find": 1, "unwrap": 4, "derive": 3}
@@ -22,14 +27,70 @@ class C09(ObjCheck):
             "handles. After every call that returns != CKR_OK the complete census (C_FindObjects + every attribute) through "
             "EVERY open session is compared with the model state committed by the last successful call, and at the end of "
             "the history again after a user login, after C_Finalize/C_Initialize, and against the decoded token directory. "
-            "Non-trivial = a failing call whose template is valid up to a position >= 1 (a prefix could have been applied).")
-    essential_labels = {"template_invalid_at_pos>0": 100, "views_checked": 500}
+            "Non-trivial = a failing call whose template is valid up to a position >= 1 (a prefix could have been applied), or a fault case in which "
+            "the injected failure fired and the call returned an error. " + "")
+    essential_labels = {"template_invalid_at_pos>0": 100, "views_checked": 500, "fault_cases_call_failed": 40}
+    rule_fault = ("Fault leg: for the C16 scenario (two tokens, private key, multi-buffer data object, certificate) and 9 object-management calls, ONE "
+                  "file-system operation of the call - chosen among the operations a fault-free traced run of the same call performs - is made to fail "
+                  "(once, or sticky = the disk stays full; errno by operation or ENOSPC/EIO/EACCES/EMFILE). When the call then returns an error, the view "
+                  "through fresh sessions of the same process AND the view of a fresh process on the directory must equal the view before the call.")
 
     def budget(self, tier):
         return {"examples": 3200, "shards": 16, "maxlen": 30} if tier == "quick" else {"examples": 16000, "shards": 16, "maxlen": 60}
 
     def strategy(self, tier):
-        return program_st(WEIGHTS, self.budget(tier)["maxlen"], p_bad=0.5, prefix=[("open", 0, 1), ("login", 0, "USER")])
+        hist = program_st(WEIGHTS, self.budget(tier)["maxlen"], p_bad=0.5, prefix=[("open", 0, 1), ("login", 0, "USER")])
+        fault = faultleg.strategy()
+        return st.sampled_from([0] * 12 + [1]).flatmap(lambda k: fault if k else hist)
+
+    def setup(self, ctx):
+        ObjCheck.setup(self, ctx)
+        ctx.shared["fstage"] = Stage(ctx.env, ctx.shared["tpl"], reuse=False)
+
+    def run_program(self, ctx, prog):
+        if isinstance(prog, dict) and prog.get("fault"):
+            return self.run_fault(ctx, prog)
+        return ObjCheck.run_program(self, ctx, prog)
+
+    def probe_known(self, ctx, entry):
+        """KF-C09-03: a C_DestroyObject whose unlink fails answers an error - and the object is gone for the process"""
+        if entry["id"] != "KF-C09-03":
+            return False
+        before = ctx.kf.hits.get("KF-C09-03", 0)
+        self.run_fault(ctx, {"fault": True, "call": "destroy", "size": 10, "bsize": 4100, "seed": 1, "extra_objs": 0, "pos": 0, "anyop": False, "sticky": False, "errno": "",
+                             "opname": "remove"})
+        return ctx.kf.hits.get("KF-C09-03", 0) > before
+
+    def run_fault(self, ctx, prog):
+        r = faultleg.run(ctx, prog, ctx.shared["fstage"], ctx.shared["tpl"])
+        if r is None or not r["fired"]:
+            ctx.label("fault_cases_not_fired")
+            ctx.case(prog, False, set())
+            return
+        ctx.label("fault_cases")
+        ctx.label("fault_op_" + r["op"])
+        if r["rv"] == 0:
+            ctx.label("fault_cases_call_ok")          # judged by C05 (the effect must then be persistent)
+            ctx.case(prog, False, set())
+            return
+        ctx.label("fault_cases_call_failed")
+        where = "%s with operation %d/%d (%s%s%s) failing returned %s" % (prog["call"], r["k"], r["nops"], r["op"], ", sticky" if prog["sticky"] else "",
+                                                                         ", " + prog["errno"] if prog["errno"] else "", K.rvname(r["rv"]))
+        for name, view in (("through fresh sessions of the same process", r["mem"]), ("in a fresh process", r["disk"])):
+            if view == r["old"]:
+                continue
+            kinds, other = faultleg.classify(prog["call"], r["old"], view, view is r["mem"])
+            if os.environ.get("C09_FAULT_SURVEY"):
+                import json
+                with open(os.environ["C09_FAULT_SURVEY"], "a") as f:
+                    f.write(json.dumps({"call": prog["call"], "op": r["op"], "kinds": sorted(kinds), "other": other, "sticky": prog["sticky"], "rv": K.rvname(r["rv"])}) + "\n")
+            for kind in sorted(kinds):
+                # the file store rewrites in place and has no rollback (open known finding); only the object the call was writing may deviate
+                if not ctx.known({"leg": "fault", "deviation": kind}):
+                    other.append(kind)
+            if other:
+                raise Violation("%s, but the objects %s are not what they were before the call: %s" % (where, name, "; ".join(other[:5])), prog)
+        ctx.case(prog, True, set())
 
     def finish(self, ctx, world, prog):
         world.step = len(prog)
